@@ -522,7 +522,12 @@ class InterpretedFunctionsRemover(engines.engine.Engine, CompilerMixin):
                         assert eff_instance is not None
                         f = eff_instance.fluent.fluent()
                         tracking_f = em.FluentExp(is_unknown_fluents[f])
-                        n_e = Effect(tracking_f, em.TRUE(), em.TRUE())
+                        n_e = Effect(
+                            tracking_f,
+                            em.TRUE(),
+                            eff_instance.condition,
+                            forall=eff_instance.forall,
+                        )
                         new_effs.append((t, n_e))
             yield new_params, (lower, upper), conds + new_conds, effs + new_effs
 
@@ -690,7 +695,10 @@ class InterpretedFunctionsRemover(engines.engine.Engine, CompilerMixin):
         if tracking_fluent_exp == o_e:
             return None
 
-        reset_tracker_eff = Effect(tracking_fluent_exp, o_e, em.TRUE())
+        # the tracker changes exactly when the tracked effect is applied
+        reset_tracker_eff = Effect(
+            tracking_fluent_exp, o_e, ef.condition, forall=ef.forall
+        )
         return reset_tracker_eff
 
     def _get_effects(self, a: Action) -> Iterable[Tuple[Optional[Timing], Effect]]:
